@@ -75,6 +75,37 @@ theorem T3_single_dictionary_reply (body : Bytes) (d : Dict) (rest : List BValue
   simp only [firstResp, T3_failure_reason_is_a_failure d r h]
   exact ⟨_, rfl⟩
 
+/-- **T2 at the HTTP exchange.** A successful status with a body that is a well-formed reply — whatever bytes its
+    peer ids consist of — hands the manager exactly the reply of T2; any other status is a failed announce. -/
+theorem T2_exchange_hands_over_the_reply (status : Nat) (body : Bytes) (m : RespM)
+    (hs : 200 ≤ status ∧ status < 300) (h : respFromBencode body = .ok m) : exchange status body = some m := by
+  unfold exchange statusSuccess
+  simp [hs.1, hs.2, h]
+
+theorem exchange_failed_status (status : Nat) (body : Bytes) (hs : status < 200 ∨ 300 ≤ status) :
+    exchange status body = none := by
+  unfold exchange statusSuccess
+  have : (decide (200 ≤ status) && decide (status < 300)) = false := by
+    rcases hs with h | h
+    · simp; omega
+    · simp; omega
+  simp [this]
+
+/-- T3 at the exchange: a reply carrying a failure reason is a failed announce whatever the status. -/
+theorem T3_exchange_failure_reason (status : Nat) (body : Bytes) (d : Dict) (r : Bytes)
+    (hdec : decodeImpl body = some [.dict d]) (h : dictGet d kFailure = some (.str r)) : exchange status body = none := by
+  obtain ⟨reason, hr⟩ := T3_single_dictionary_reply body d [] r hdec h
+  unfold exchange
+  split
+  · rw [hr]
+  · rfl
+
+/-- Non-vacuity: the reply `d8:intervali5e5:peersld2:ip1:a7:peer id20:<20 × 0xff>4:porti7eeee` (a peer id that is not
+    UTF-8) is handed over with that id. -/
+example : (exchange 200 ([100,56,58,105,110,116,101,114,118,97,108,105,53,101,53,58,112,101,101,114,115,108,100,50,58,105,112,49,58,
+      97,55,58,112,101,101,114,32,105,100,50,48,58] ++ List.replicate 20 255 ++ [52,58,112,111,114,116,105,55,101,101,101,101])).map
+      (fun m => m.peers.map (·.peerId)) = some [List.replicate 20 255] := by decide +kernel
+
 /-! ## Part 2: any run of failed announces followed by a good one -/
 
 namespace Retry
